@@ -17,6 +17,8 @@ from ..pegcheck import Jobs, default_case, run_impl, run_oracle, spec_outcome
 # the tagging semantics in objects whose own truth value / hashability / equality must play no part (SemIdentity: the actions that
 # run are those of the object given to the call); '/api' = through tatsu.parse(grammar, text, semantics=...)
 OBJECT_SHAPES = ['tag/falsy', 'tag/unhashable', 'tag/equal', 'tag/falsy/api']
+# an action that returns its argument as a plain Python list (when it is a list) is indistinguishable from no semantics
+LISTY = ['tolist']
 
 SPEC_ACT = {'none': 'none', 'id': 'id', 'tag': 'tag', 'tagdefault': 'tag', 'failb': 'failb'}
 
@@ -56,6 +58,10 @@ def universe(tier, seed):
     # declared parameters reach the action
     gp = grammar(rule('s', seq(call('y'), opt(call('y')))), rule('y', alt(tok('a'), tok('b')), params=['T', '1']))
     items.append({'g': gp, 'texts': texts, 'label': 'params', 'nomemo': False, 'params': {'y': ['T', '1']}})
+    # a left-recursive rule: the value an action returns (also a plain list) is the seed of the next growth round, as ONE element
+    from ..absgrammar import eof
+    glr = grammar(rule('s', seq(call('y'), eof())), rule('y', alt(seq(call('y'), tok('b'), call('Z')), call('Z'))), rule('Z', tok('a')))
+    items.append({'g': glr, 'texts': all_texts(['a', 'b'], 5), 'label': 'leftrec', 'nomemo': False})
     # a rule's type and base classes ARE its declared parameter (name::Type::Base is the parameter 'Type::Base')
     gp2 = grammar(rule('s', seq(call('y'), opt(call('y')))), rule('y', alt(tok('a'), tok('b')), typ=['Foo', 'Bar']))
     items.append({'g': gp2, 'texts': texts, 'label': 'params', 'nomemo': False, 'params': {'y': ['Foo::Bar']}})
@@ -65,7 +71,7 @@ def universe(tier, seed):
 def run(tier):
     ck = Check('C06', tier)
     items = universe(tier, ck.seed)
-    kinds = list(SEM_KINDS) + ['id/memo-off', 'failfirst', 'failfirst/memo-off'] + OBJECT_SHAPES
+    kinds = list(SEM_KINDS) + ['id/memo-off', 'failfirst', 'failfirst/memo-off'] + OBJECT_SHAPES + LISTY + ['tag/compiled-twice']
     jobs, jobkey, cases = Jobs(), [], []
     for it in items:
         rules = [r['name'] for r in it['g']['rules']]
@@ -176,6 +182,13 @@ def run(tier):
                     bad(f"spec ok {s_.get('v')!r}", kind, s_)
                 elif s_['k'] == 'fail' and o['k'] != 'fail':
                     bad('spec: parse failure', kind, s_)
+            # (only on the left-recursive family: elsewhere a plain list returned by an action is spliced into the caller's sequence,
+            #  the open-list representation behind KF-C01-1)
+            if 'tolist' in res and c['label'] == 'leftrec' and not same(res['tolist'], res['none']):
+                bad('an action that returns its (list) argument as a plain list is distinguishable from no semantics', 'tolist', res['none'])
+            if 'tag/compiled-twice' in res and c['backend'] == 'model' and not same(res['tag/compiled-twice'], res['tag']):
+                bad('compile(g, semantics=S1) ; compile(g, semantics=S2) ; the first model no longer runs the actions of S1',
+                    'tag/compiled-twice', res['tag'])
             # the object's own truth value, hashability and equality play no part
             for kind in OBJECT_SHAPES:
                 if kind in res and not (kind.endswith('/api') and c['backend'] != 'model') and not same(res[kind], res['tag']):
